@@ -129,13 +129,14 @@ def showIssue (srv : Server) (req : Request) (r : Resp CertData) : String :=
 
 def stepIssue (d : DState) (toks : List String) : DState × String :=
   match toks with
-  | ["ca", _kind, signer, chain, root, dflt, mx] =>
+  | ["ca", kind, signer, chain, root, dflt, mx] =>
     let b : Bundle := {
       signerNotAfter := if signer == "none" then none else some (d.clock + parseInt signer * sec),
       chain := (if chain == "-" then [] else chain.splitOn ",").map
         (fun l => { name := "c", notAfter := d.clock + parseInt l * sec }),
       hasRoot := root == "1" }
-    match newIstioCA b (parseInt dflt * sec) (parseInt mx * sec) d.clock with
+    -- kind plugfilenotca: the production constructor is handed a signing certificate that is not a CA certificate
+    match newPluggedIstioCA (kind != "plugfilenotca") b (parseInt dflt * sec) (parseInt mx * sec) d.clock with
     | none => ({ d with ca := none, clock := d.clock + tick }, "ca-err")
     | some ca => ({ d with ca := some ca, clock := d.clock + tick }, "ca-ok")
   | ["rot", life, chain] =>
@@ -175,9 +176,13 @@ def stepIssue (d : DState) (toks : List String) : DState × String :=
   | ["cl", "upd", id, pods, run] =>
     let cs := onSlot (dec id) (fun s => if run == "1" then (s.updated (podsOf pods) d.hidden).synced else s.updated (podsOf pods) d.hidden) d.clusters
     ({ d with clusters := cs }, "ev-ok")
+  | ["cl", "run", id] =>
+    -- the new component of a pending update syncs; the swap is not finalised yet
+    let cs := onSlot (dec id) (fun s => if s.swap.isSome && s.cur.any (fun c => !c.synced) then s.ran else s) d.clusters
+    ({ d with clusters := cs }, "ev-ok")
   | ["cl", "sync", id] =>
     -- the harness starts the client of a still pending update (none after the cluster was deleted)
-    let cs := onSlot (dec id) (fun s => if s.cur.any (fun c => !c.synced) then s.synced else s) d.clusters
+    let cs := onSlot (dec id) (fun s => if s.cur.any (fun c => !c.synced) || s.swap.isSome then s.synced else s) d.clusters
     ({ d with clusters := cs }, "ev-ok")
   | ["cl", "del", id] =>
     let cs := onSlot (dec id) (Slot.deleted repoFixes.swapCleanup) d.clusters
@@ -199,7 +204,8 @@ def stepIssue (d : DState) (toks : List String) : DState × String :=
       let flags := ctx.toList
       let c : Ctx := { xdsAuth := flags[0]? == some '1', hasPeer := flags[1]? == some '1', tls := flags[2]? == some '1',
                        authPlaintext := flags[3]? == some '1',
-                       clusterIDs := if cluster == "-" then none else some (decList cluster) }
+                       -- 5th flag: no incoming metadata at all, hence no clusterid either
+                       clusterIDs := if cluster == "-" || flags[4]? == some '1' then none else some (decList cluster) }
       let os := (decList outs).map (fun o => outOfFields (decFields o))
       let req : Request := { csr := csrOfFields (decFields (dec csr)), validity := parseInt ttl,
                              impersonated := metaStr imp, certSigner := metaStr signer,
@@ -321,7 +327,10 @@ def poolSrcOf (p : String) : String × PoolSrc :=
   match p.splitOn "=" with
   | [td, roots] =>
     if roots.startsWith "@" then
-      let keys := (roots.drop 1).toString
+      let spec := (roots.drop 1).toString
+      -- `!500` / `!badurl`: never fetched; `!flaky;<keys>`: unavailable once, fetched on the retry
+      if spec == "!500" || spec == "!badurl" then (td, .unreachable) else
+      let keys := if spec.startsWith "!flaky" then ((spec.drop 6).toString.dropWhile (· == ';')).toString else spec
       (td, .bundle (if keys.isEmpty then [] else (keys.splitOn ";").map bundleKeyOf))
     else (td, .roots (roots.splitOn "+"))
   | _ => (p, .roots [])
@@ -339,9 +348,12 @@ def modeOf (m : String) : Option (PeerKind × Bool) :=
     `mesh`: the mesh config's trust domain at the time of the request, if a `mesh` op set one (else the
     one the spec's authenticator was constructed with); `conn`: a non-TLS connection -/
 def evalSpec (toks : List String) (clusterOverride : Option (Option (List String))) (mesh : Option String)
-    (conn : Option PeerKind) : Option SpecRes :=
+    (conn : Option PeerKind) (carrier : Option (List String) := none) : Option SpecRes :=
+  -- `carrier` (reqm with several token-based authenticators): the spec whose token(s) the request's one
+  -- `authorization` metadata carries - the last token-based spec of the line
   match toks with
-  | ["oidc", tr, td, expected, form, tokkind, sub, audkind, aud] =>
+  | ["oidc", tr, td, expected, form, tokkind, sub, audkind, aud, ctor] =>
+    -- ctor: j / d = jwks_uri / discovery branch of the constructor (same behaviour); a trailing n = nil mesh holder
     let verdict : OidcTok :=
       if tokkind == "okfloat" then .badClaims   -- fractional `exp`: the verifier accepts it, JwtPayload.Exp (int) does not unmarshal
       else if tokkind != "ok" then .rejected
@@ -349,7 +361,13 @@ def evalSpec (toks : List String) (clusterOverride : Option (Option (List String
       else .claims (if sub == "absent" then "" else dec sub) (if audkind == "absent" then [] else decList aud)
     -- the verifier accepts (with `verdict`) only the token minted for this line; any other token is rejected
     let verify : String → OidcTok := fun t => if t == "T" then verdict else .rejected
-    some { res := oidcEntry repoOidcFixed (mesh.getD (dec td)) (decList expected) (transportOf tr) (authValsOf form "T") verify,
+    -- the request carries another spec's token: an OIDC one is judged by THIS authenticator's configuration
+    -- (handled by the caller, which substitutes the token fields); a Kubernetes token is no JWT of the issuer
+    let (vals, verify) : List String × (String → OidcTok) := match carrier with
+      | some ("kube" :: _ :: _ :: _ :: _ :: _ :: _ :: kform :: ktok :: _) => (authValsOf kform (dec ktok), fun _ => .rejected)
+      | _ => (authValsOf form "T", verify)
+    let holder : Option String := if ctor.endsWith "n" then none else some (mesh.getD (dec td))
+    some { res := oidcEntryH repoOidcFixed holder (decList expected) (transportOf tr) vals verify,
            tls := conn.isNone }
   | ["kube", tr, td, primary, aliases, remotes, clusterHdr, form, tok, tokenAud, review] =>
     let f := decFields (dec review)
@@ -360,11 +378,15 @@ def evalSpec (toks : List String) (clusterOverride : Option (Option (List String
                            remotes := if remotes == "nil" then none else some (decList remotes) }
     let hdr := match clusterOverride with
       | some o => o
-      | none => if clusterHdr == "-" then none else some (decList clusterHdr)
+      | none => if clusterHdr == "-" || form == "nomd" then none else some (decList clusterHdr)
     -- the API servers authenticate only this line's token reviewed for the configured audiences
     let api : ReviewCall → Review := fun call =>
       if call.token == dec tok && call.audiences == decList tokenAud then r else { authenticated := false }
-    let res := kubeAuthenticate (transportOf tr) (mesh.getD (dec td)) cfg hdr (authValsOf form (dec tok)) (decList tokenAud) api
+    -- the request carries an OIDC spec's token: the API server does not know it
+    let vals := match carrier with
+      | some ("oidc" :: _ :: _ :: _ :: oform :: _) => authValsOf oform "T"
+      | _ => authValsOf form (dec tok)
+    let res := kubeAuthenticate (transportOf tr) (mesh.getD (dec td)) cfg hdr vals (decList tokenAud) api
     some { res := res.1, trailer := showCall res.2, tls := conn.isNone }
   | ["xfcc", _tr, cidrs, peerAddr, hdrs, parsed] =>
     let addr := if peerAddr == "nopeer" then "unknown" else dec peerAddr
@@ -428,7 +450,20 @@ def stepReal (d : DState) (specs : List String) (csr ttl imp signer cluster junk
   | some ca =>
     if !d.naSet then (d, "no-ca") else
     let clusterIDs := if cluster == "-" then none else some (decList cluster)
-    let rs := specs.filterMap (fun sp => evalSpec (words sp) (some clusterIDs) d.mesh (conn.map (·.1)))
+    let toks := specs.map words
+    let tokenBased := toks.filter (fun t => t.head? == some "kube" || t.head? == some "oidc")
+    -- the carrier: the last token-based spec that puts an authorization value into the request at all
+    let formOf (t : List String) : String := if t.head? == some "kube" then fieldAt t 7 else fieldAt t 4
+    let carrier : Option (List String) :=
+      if tokenBased.length ≥ 2 then (tokenBased.filter (fun t => !(authValsOf (formOf t) "t").isEmpty)).getLast? else none
+    -- an OIDC authenticator facing the token of ANOTHER OIDC spec: that token's fields, its own configuration
+    let view (t : List String) : List String :=
+      match t, carrier with
+      | ["oidc", tr, td, expected, _, _, _, _, _, ctor], some ("oidc" :: _ :: _ :: _ :: cf :: ck :: cs :: cak :: ca :: _) =>
+        ["oidc", tr, td, expected, cf, ck, cs, cak, ca, ctor]
+      | _, _ => t
+    let rs := toks.filterMap (fun t => evalSpec (view t) (some clusterIDs) d.mesh (conn.map (·.1))
+                (if carrier == some t then none else carrier))
     if rs.length != specs.length then (d, "bad-op")
     else if rs.any (·.rejected) then (d, "reject")
     else
